@@ -10,6 +10,7 @@ mod num;
 mod json;
 mod orders;
 mod seq;
+mod entry;
 
 fn main() {
     let args: Vec<String> = std::env::args().collect();
@@ -25,6 +26,7 @@ fn main() {
         "json" => json::main(&rest),
         "orders" => orders::main(&rest),
         "seq" => seq::main(&rest),
+        "entry" => entry::main(&rest),
         _ => {
             eprintln!("usage: th <engine> <args..>");
             2
